@@ -33,6 +33,7 @@ import (
 	"time"
 
 	"github.com/talostrading/sonic"
+	"github.com/talostrading/sonic/sonicerrors"
 	"verifmc/engine"
 	"verifmc/kern"
 )
@@ -79,6 +80,8 @@ type c02Reader struct {
 	infl  bool
 	// window: every buffer handed to a read is a window into a larger array (len < cap) guarded by canaries
 	window bool
+	// rearmOnCancel: a cancellation callback starts the same read again (it may be satisfied in part at once)
+	rearmOnCancel bool
 }
 
 func (r *c02Reader) issue(forced bool) {
@@ -129,6 +132,10 @@ func (r *c02Reader) issue(forced bool) {
 			if r.reads < 64 {
 				r.issue(false)
 			}
+			return
+		}
+		if r.rearmOnCancel && errors.Is(err, sonicerrors.ErrCancelled) && r.reads < 64 {
+			r.issue(false)
 			return
 		}
 		r.done = true
@@ -183,6 +190,12 @@ func c02Read(x *engine.X, kind string, maxN int) {
 		}
 		if i == 0 && late {
 			r.issue(forced)
+		}
+		if i == 0 && !late && x.Deviate(2, "the pending read is cancelled once a chunk has arrived and re-issued from the cancellation callback") == 1 {
+			// the re-issued read finds the chunk in the socket: a ReadAll is satisfied in part at once and parks again
+			r.rearmOnCancel = true
+			o.fdo.Cancel()
+			r.rearmOnCancel = false
 		}
 		polls := []int{1, 0, 2}[x.Deviate(3, "polls after the chunk")]
 		for p := 0; p < polls; p++ {
